@@ -127,7 +127,9 @@ def run(F, R):
     if cw:
         s = nrm(cw.trace_local(0), {1: "self", 2: "complex"})
         exp = "tuple{unwrap_or(destructure(self).0, complex.wall), unwrap_or(destructure(self).1, complex.mono)}"
-        R.check("C19-R1", "complete_with", s == exp, s, "complete_with builds %s, expected %s" % (s, exp))
+        # the same table written as a match on the variant: Wall(w) -> (w, c.mono); Monotonic(m) -> (c.wall, m); Complex(x) -> x
+        exp2 = "phi(ComplexTime{complex.wall, self@Monotonic.0}|ComplexTime{self@Wall.0, complex.mono}|self@Complex.0)"
+        R.check("C19-R1", "complete_with", s in (exp, exp2), s, "complete_with builds %s, expected %s" % (s, exp))
     for fn, idx in (("checked_to_system_time", 0), ("checked_to_instant", 1)):
         b = lib.one(R, "C19-R1", c, fn, item=fn, impl_self=PCT)
         if b:
@@ -261,7 +263,8 @@ def run(F, R):
                 ps = nrm(pos, {1: "micros"})
                 ns = nrm(neg, {1: "micros"})
                 ok = ps == "add(const std::time::SystemTime::UNIX_EPOCH, from_micros(cast<IntToInt>(micros)))".replace("cast<IntToInt>(micros)", "cast<IntToInt>(param1)") or ("add(" in ps and "UNIX_EPOCH" in ps and "from_micros" in ps)
-                ok = ok and "sub(" in ns and "UNIX_EPOCH" in ns and "from_micros" in ns and "wrapping_neg" in ns
+                # magnitude of a non-positive m: (m as u64).wrapping_neg(), or m.unsigned_abs() (equal for every m <= 0, including i64::MIN)
+                ok = ok and "sub(" in ns and "UNIX_EPOCH" in ns and "from_micros" in ns and ("wrapping_neg" in ns or "unsigned_abs(" in ns)
                 det = "pos: %s ; neg: %s" % (ps, ns)
         R.check("C19-R3", "inverse-shape", ok, det, "micros_from_epoch_to_system_time is not {>0: EPOCH + from_micros(m), else: EPOCH - from_micros(wrapping_neg(m))}: " + det)
 
